@@ -12,6 +12,11 @@ import sys
 import traceback
 
 
+import threading as _threading
+# the contracts call the state of an Event `flag`
+_threading.Event.flag = property(lambda self: self.is_set())
+
+
 class G:
     """ghost record"""
     def __init__(self, **kw):
